@@ -366,3 +366,6 @@ func Emit(name string, v any) {
 	}
 	Emits = append(Emits, name+"="+s)
 }
+
+// MkTime is time.Unix(sec, nsec).UTC() for 0 <= nsec < 1e9.
+func MkTime(sec, nsec int64) time.Time { return time.Unix(sec, nsec).UTC() }
